@@ -24,7 +24,8 @@ RULE = ("data histories: 12-40 steps over 3 CacheData slots, 4-8 peers with 2-5 
         "max_peers in {1,2,3,5}, max_addrs in {1,2,3}, last_seen constructed around now / the expiry boundary / "
         "the future with ties, counters 0,1,2,2^31,2^32-2,2^32-1; store histories: 10-30 steps mixing additions "
         "(raw multiaddresses with extra protocols, unparsable text), status updates, removals, clean-ups, foreign / "
-        "valid / corrupt cache files written underneath, flushes with and without clean-up, loads, sleeps; "
+        "valid / corrupt cache files written underneath (incl. long ones, so that the next flush is a shrinking rewrite of the "
+        "same path), flushes with and without clean-up, loads, sleeps; "
         "concurrent: 4-8 threads + 2-3 processes x 15-40 flushes with a reader; a case is distinct/non-trivial by "
         "(kind, limits, multiset of step kinds, whether an eviction / expiry / merge / corrupt file occurred)")
 ASSUMPTIONS = [
@@ -102,12 +103,12 @@ def gen_data_history(rng, deep):
     return {"op": "history", "kind": "data", "cfg": cfg, "steps": steps}
 
 
-def file_text(rng, pool, cfg, foreign=False):
+def file_text(rng, pool, cfg, foreign=False, expired_bulk=False):
     """a cache file another process could have written: (text with @S..@ placeholders, data)"""
     recent, expired, future = offsets(rng, max(cfg["expiry_secs"], 1))
     rng.shuffle(recent)
     peers, data = {}, []
-    extra = [peer_id(rng) for _ in range(rng.choice([0, 1, 2]))]
+    extra = [peer_id(rng) for _ in range(rng.choice([0, 1, 2]) if not expired_bulk else 12)]   # bulk: a long file the clean-up empties
     for p in rng.sample(pool.peers, rng.randrange(0, len(pool.peers) + 1)) + extra:
         lst, dl = [], []
         cands = pool.addrs.get(p[0]) or [good_addr(rng, p) for _ in range(2)]
@@ -117,7 +118,7 @@ def file_text(rng, pool, cfg, foreign=False):
                 t, pr = "".join(c[0] for c in comps), [c[1] for c in comps]
             s, f = rng.choice([1, 2, 5, 9]), rng.choice([0, 0, 1, 2, 7])
             q = rng.random()
-            off = recent.pop() if (q < 0.8 and recent) else (rng.choice(expired) if q < 0.9 else rng.choice(future))
+            off = recent.pop() if (q < 0.8 and recent and not (expired_bulk and p in extra)) else (rng.choice(expired) if q < 0.9 else rng.choice(future))
             lst.append({"addr": t, "success_count": s, "failure_count": f,
                         "last_seen": {"secs_since_epoch": "@S%d@" % off, "nanos_since_epoch": 0}})
             dl.append({"protos": pr, "s": s, "f": f, "rel": off * 10 ** 9, "addr": t})
@@ -159,15 +160,20 @@ def gen_store_history(rng, deep):
         elif r < 0.8:
             q = rng.random()
             if q < 0.6:
-                t, d = file_text(rng, pool, cfg, foreign=False)
+                t, d = file_text(rng, pool, cfg, foreign=False, expired_bulk=(rng.random() < 0.3))
                 steps.append({"k": "write_file", "text": t, "data": d, "fkind": "valid"})
+                if rng.random() < 0.4:
+                    steps += [{"k": "flush", "cleanup": True}, {"k": "load"}]   # rewrite of the same path, usually shorter
             elif q < 0.75:
                 t, d = file_text(rng, pool, cfg, foreign=True)
                 steps.append({"k": "write_file", "text": t, "data": d, "fkind": "foreign"})
             elif q < 0.9:
+                # (the long ones make the next flush a SHRINKING rewrite of the same path: a write that does not replace
+                # the whole content would leave their tail behind the new JSON)
                 steps.append({"k": "write_file", "fkind": "corrupt",
                               "bytes": list(rng.choice([b"", b"{", b"\xff\xfe", b"[]", b'{"peers": 5}', b"null",
-                                                        b'{"peers":{"x":[]}}', b'{"peers":{}}'])) })
+                                                        b'{"peers":{"x":[]}}', b'{"peers":{}}', b"x" * 6000,
+                                                        b'{"peers": {' + b" " * 5000 + b"}", b"}" * 3000])) })
             else:
                 steps.append({"k": "delete_file", "fkind": "absent"})
         elif r < 0.92:
